@@ -188,6 +188,15 @@ def lookup(call: T.Dict[str, T.Any], world: T.Dict[str, T.Any], st: State, urls:
     # 2. the fallback subproject is configured already: never fall through to the system
     if sub_name is not None and sub_name == SUBNAME and st.sub_state == 'ok':
         r = from_sub()
+        if (r == 'ERROR' or not r[0]) and world.get('cached_sys') and not forced:
+            # ... except in a build directory where an earlier configuration already resolved the name from the system:
+            # the statement wants the system dependency whenever it is present, matching and fallback is not forced, and
+            # that earlier answer is still on record (observed on the tree: "found: YES (cached)")
+            sysv = world.get('sys')
+            if sysv is not None and version_ok(sysv, constraint):
+                r3c = (True, 'pkgconfig', sysv)
+                st.overrides.setdefault(name, r3c)
+                return r3c
         if r != 'ERROR' and r[0]:
             st.overrides.setdefault(name, r)       # type: ignore[arg-type]
         return r
